@@ -23,7 +23,7 @@ PRIOS = (None, {"a": -1}, {"b": 1, "d1": 2}, {"a": -1, "c.txt": 1}, {"d1": -1, "
 
 
 def budget(tier):
-    return {"quick": {"runs": 4000, "wall": 170}, "thorough": {"runs": 250000, "wall": 1500}}[tier]
+    return {"quick": {"runs": 4000, "wall": 170}, "thorough": {"runs": 48000, "wall": 900}}[tier]
 
 
 def _install(ex, case):
